@@ -207,13 +207,9 @@ def viewOf (a : Args) : View :=
   { base := a.int "base", shape := a.nats "shape", strides := a.ints "strides",
     carray := a.nat "carray" == 1 }
 
+/-- the addresses the iterator visits: `data_` after `k = 0 … size-1` increments (the very `incrN` the theorems are about) -/
 def iterAddrs (v : View) : List Int :=
-  let n := shapeSize v.shape
-  let rec go (fuel : Nat) (it : Iter) (acc : List Int) : List Int :=
-    match fuel with
-    | 0 => acc.reverse
-    | f + 1 => go f it.incr (it.data :: acc)
-  go n (Iter.begin v) []
+  (List.range (shapeSize v.shape)).map fun k => ((Iter.begin v).incrN k).data
 
 def handle (a : Args) : String :=
   match a.str "kind" with
